@@ -137,6 +137,16 @@ CLAIMED["C11"] = dict(
     technique="jaxpr symbolic execution to polynomials + z3 (NRA) identity queries; float64 replay",
     design="§4 C11", note=DIRECT_NOTE)
 
+CLAIMED["C13"] = dict(
+    text="Bounded symbolic check of the real sampler: MarkovSequence.sample / from_grid are traced on ARBITRARY Markov sequences "
+         "(symbolic marginal, conditionals with offsets and scalings) with random.normal replaced by an uninterpreted function "
+         "of the concrete PRNG key; the samples are polynomials that must be affine in the draws, with the draws set to zero "
+         "they must equal the exact smoothing means, and the coefficient matrix T of the draws must satisfy T_j T_l^T = "
+         "Cov(x_j, x_l) of the exact joint law, for sample shapes (), (2,), (2,2) and three factorisations (z3 identity "
+         "queries). Violations are replayed on the real sampler with forced draws (zero / unit vectors).",
+    technique="jaxpr symbolic execution to polynomials (draws as UF of the PRNG key) + z3 (NRA) identity queries; forced-draw replay",
+    design="§4 C13", note=DIRECT_NOTE)
+
 NOT_APPLICABLE = {
     "C01": "Global error vs the true (transcendental) ODE solution and observed convergence rates in floating point "
            "cannot be expressed as a bounded real-arithmetic query over the code; its mechanisms are decided under C02, C06, C07, C09.",
